@@ -220,7 +220,12 @@ class TaskScenario(ScenarioData):
         for task in self.project.tasks:
             if not task.leaf():
                 continue
-            deps = task.get("depends", self.scenarioIdx) or []
+            # Own dependencies and those of every enclosing container
+            task_scenario = task.data[self.scenarioIdx] if task.data else None
+            if task_scenario is not None and hasattr(task_scenario, "getAllDependencies"):
+                deps = task_scenario.getAllDependencies()
+            else:
+                deps = task.get("depends", self.scenarioIdx) or []
             for dep in deps:
                 if isinstance(dep, dict):
                     pred = dep.get("task")
@@ -580,16 +585,23 @@ class TaskScenario(ScenarioData):
                     for successor in successors:
                         succ_start = successor.get("start", self.scenarioIdx)
                         if succ_start:
-                            # Honour the gap the successor requests after this task
-                            for sdep in successor.get("depends", self.scenarioIdx) or []:
+                            # Honour the largest gap the successor (or one of its enclosing
+                            # containers) requests after this task
+                            gap_hours = 0.0
+                            succ_scenario = successor.data[self.scenarioIdx] if successor.data else None
+                            succ_deps = (
+                                succ_scenario.getAllDependencies()
+                                if succ_scenario is not None
+                                else successor.get("depends", self.scenarioIdx) or []
+                            )
+                            for sdep in succ_deps:
                                 if isinstance(sdep, dict) and sdep.get("task") is self.property:
                                     if sdep.get("gapduration") and not sdep.get("onstart"):
-                                        from datetime import timedelta
+                                        gap_hours = max(gap_hours, self._parse_duration(sdep.get("gapduration")))
+                            if gap_hours:
+                                from datetime import timedelta
 
-                                        succ_start = succ_start - timedelta(
-                                            hours=self._parse_duration(sdep.get("gapduration"))
-                                        )
-                                    break
+                                succ_start = succ_start - timedelta(hours=gap_hours)
                         if succ_start and succ_start < latest_end:
                             latest_end = succ_start
 
